@@ -6,6 +6,7 @@
   to a disagreement.
 -/
 import RdfModel.Model.NQuads
+import RdfModel.Props.C05NQDefs
 import RdfModel.Proofs.C05NQ
 namespace RdfModel.C05NQ
 open RdfModel RdfModel.NQ
@@ -35,31 +36,6 @@ theorem latch (T : Tables) (urlOk : List Nat → Bool) (e : End) (quads : Bool) 
 theorem next_true_has_current (T : Tables) (urlOk : List Nat → Bool) (e : End) (quads : Bool) (d : Dec)
     (h : (Dec.next T urlOk e quads d).2 = true) : (Dec.next T urlOk e quads d).1.cur.isSome = true :=
   Proofs.C05NQ.next_true_has_current T urlOk e quads d h
-
-/-- Subject / graph-name shape: an IRI that passed the absolute-IRI check, or a blank node with a
-    non-empty label (an identity). -/
-def nodeShape (urlOk : List Nat → Bool) : Term (List Nat) → Prop
-  | .iri v => urlOk v = true
-  | .bnode l => l ≠ []
-  | .lit .. => False
-
-/-- Literal well-formedness of C06: a datatype is always present (`xsd:string`, `rdf:langString`
-    or one that passed the IRI check) and a non-empty language tag exactly when the datatype is
-    rdf:langString. (The model has no directional tags: the library's N-Triples/N-Quads decoders
-    never produce them.) -/
-def litOK (urlOk : List Nat → Bool) (dt : List Nat) (lang : Option (List Nat)) : Prop :=
-  (dt = xsdString ∨ dt = rdfLangString ∨ urlOk dt = true) ∧
-  (dt = rdfLangString ↔ ∃ t, lang = some t ∧ t ≠ [])
-
-def objectShape (urlOk : List Nat → Bool) : Term (List Nat) → Prop
-  | .lit _ dt lang => litOK urlOk dt lang
-  | t => nodeShape urlOk t
-
-structure WFShape (urlOk : List Nat → Bool) (quads : Bool) (q : Quad (List Nat)) : Prop where
-  s : nodeShape urlOk q.s
-  p : ∃ v, q.p = .iri v ∧ urlOk v = true
-  o : objectShape urlOk q.o
-  g : ∀ g, q.g = some g → quads = true ∧ nodeShape urlOk g
 
 /-- C06: every statement the decoder yields — also the ones before an error — is well-formed, and
     every IRI in it passed the decoder's absolute-IRI check. All inputs, both endings. -/
